@@ -84,5 +84,25 @@ def draw_config(ch, max_events=60, allow_zero=True):
         if ch.draw(3, "sun_moon") == 1:
             det.sun_moon.sun_moon_cuts = False
         d["target"] = (round(sim.target.source_RA, 3), round(sim.target.source_DEC, 3), sim.target.source_date, sim.target.source_obst, det.sun_moon.sun_moon_cuts)
+    # trigger thresholds (0 and negative values are legal: "everything triggers")
+    if ch.draw(3, "thresholds") == 2:
+        det.radio.snr_threshold = (5.0, 0.0, -1.0, 0.01)[ch.draw(4, "snr_threshold")]
+        det.optical.photo_electron_threshold = (10.0, 0.0, 1e5, 1.0)[ch.draw(4, "pe_threshold")]
+        d["thresholds"] = (det.radio.snr_threshold, det.optical.photo_electron_threshold)
+    if max_events >= 60 and d["mode"] == "Diffuse":
+        big = ch.draw(16, "events_special")
+        if big == 15 and not det.optical.enable:
+            # more survivors than the 8192-element iterator buffer (cheap without the optical stage)
+            n = 8500 + ch.draw(9000, "events_huge")
+            d["thrown_events"] = sim.thrown_events = n
+        elif big == 14:
+            # one or two trajectories at the highest energies: the tau usually decays far above
+            # the 20 km optical window (survivors exist, none of them gives light)
+            n = 1 + ch.draw(2, "events_one_or_two")
+            e = (12.0, 11.0)[ch.draw(2, "high_E")]
+            d["want_all_decays_outside_optical_window"] = True
+            sim.spectrum = Simulation.MonoSpectrum(log_nu_energy=e)
+            d["thrown_events"] = sim.thrown_events = n
+            d["spectrum"] = f"mono({e})"
     d["rng_seed"] = ch.draw(2**16, "rng_seed")
     return cfg, d
